@@ -41,7 +41,7 @@ def r1_start_char(ctx):
         return [NOT(d), NOT(d2)]
 
     for cfg in ('dev', 'rel'):
-        an = analyse(ctx, cfg, RM + 'start_char', [], uninterpreted=lambda p: not p.endswith('CharSet::contains'))
+        an = analyse(ctx, cfg, RM + 'start_char', [], uninterpreted=lambda p: not (p.endswith('CharSet::contains') or p.endswith('CharSet::is_before') or p.endswith('CharSet::is_after')))
         ip, fn = an.ip, an.fn
         # per variant: the function computed is  OR over leaves (leaf guards and returned value)
         byv = {}
